@@ -151,6 +151,9 @@ type Param struct {
 	SlT   string  `json:"slt,omitempty"`
 	Obj   []Param `json:"obj,omitempty"`
 	IsObj bool    `json:"isobj,omitempty"` // object with possibly zero fields
+	// EmbedAt: position of the embedded dig.In among the fields of a
+	// generated parameter object (0 = first, the usual place)
+	EmbedAt int `json:"embedat,omitempty"`
 	// Decl: the object is a declared struct type (ignore-unexported:"true"
 	// with unexported fields in between); Obj lists its exported fields.
 	Decl  string `json:"decl,omitempty"`
@@ -169,13 +172,14 @@ type Result struct {
 	Nil     bool   `json:"nil,omitempty"` // slice result is nil rather than empty when N == 0
 	// Zero: the function returns the zero value (nil pointer, nil interface,
 	// S0{}) for this result: a provided value that happens to be zero
-	Zero  bool     `json:"zero,omitempty"`
-	Slice bool     `json:"sl,omitempty"`  // result type is []T (group decorators, flatten)
-	SlT   string   `json:"slt,omitempty"` // slice-typed result declared with a named slice type (variant "A" / "B")
-	Obj   []Result `json:"obj,omitempty"`
-	IsObj bool     `json:"isobj,omitempty"`
-	Tag   string   `json:"tag,omitempty"`
-	Host  string   `json:"host,omitempty"`
+	Zero    bool     `json:"zero,omitempty"`
+	Slice   bool     `json:"sl,omitempty"`  // result type is []T (group decorators, flatten)
+	SlT     string   `json:"slt,omitempty"` // slice-typed result declared with a named slice type (variant "A" / "B")
+	Obj     []Result `json:"obj,omitempty"`
+	EmbedAt int      `json:"embedat,omitempty"` // position of the embedded dig.Out among the fields (0 = first)
+	IsObj   bool     `json:"isobj,omitempty"`
+	Tag     string   `json:"tag,omitempty"`
+	Host    string   `json:"host,omitempty"`
 }
 
 type Opts struct {
